@@ -26,6 +26,15 @@ def gen_config(rng, k):
     for _ in range(n):
         nums.append(cur)
         cur += 1 + (rng.randint(1, 5) if rng.random() < 0.1 else 0)
+    # records out of order / with a slightly wrong number survive the sanitiser (deviation < 500): "missing" is a set
+    # difference against 1..last, whatever the order of the records
+    shape = rng.choice(["ordered", "ordered", "swapped", "flipped"])
+    if shape == "swapped" and n > 6:
+        i = rng.randrange(2, n - 2)
+        nums[i], nums[i + 1] = nums[i + 1], nums[i]
+    elif shape == "flipped" and n > 6:
+        i = rng.randrange(2, n - 2)
+        nums[i] = nums[i] + rng.choice([16, 64, 100])
     pod = fmt.startswith("pod")
     year, doy = (2000, 322) if pod else (2002, 187)
     per = 500 if fmt.endswith("Gac") else 166
